@@ -35,6 +35,23 @@ func LoadFamily(path string) (*Family, error) {
 	if err := LoadJSONFile(path, &f); err != nil {
 		return nil, err
 	}
+	// names in builder calls are written in the token encoding (identity for plain ASCII)
+	dec := func(cs []Call) {
+		for i := range cs {
+			for _, l := range []*[]string{&cs[i].Names, &cs[i].Attrs, &cs[i].Els, &cs[i].Props, &cs[i].Schemes, &cs[i].Vals} {
+				for j := range *l {
+					(*l)[j] = Dec((*l)[j])
+				}
+			}
+		}
+	}
+	for _, r := range f.Recipes {
+		dec(r)
+	}
+	dec(f.Calls)
+	for _, cp := range f.CtorPairs {
+		dec(cp)
+	}
 	return &f, nil
 }
 
